@@ -710,11 +710,13 @@ def c17(tier, seed):
     dshapes = [sh for sh in shapes(u) if all(k == 'd' for _, k in sh)]
     targets = ['a', 'a_b', 'a_b_c', 'ab']
     cases = []
-    for cfg in (['mem', 'alt', 'ovl'] if tier != 'quick' else ['mem', 'ovl']):
+    for cfg in (['mem', 'alt', 'ovl', 'ovl_lowerpre'] if tier != 'quick' else ['mem', 'ovl', 'ovl_lowerpre']):
         for sh in dshapes:
             for i, t1 in enumerate(targets):
                 for t2 in targets[i:]:
                     if cfg == 'ovl' and tier == 'quick' and len(sh) > 1:
+                        continue
+                    if cfg == 'ovl_lowerpre' and (not sh or (tier == 'quick' and (len(sh) > 2 or t1 == 'ab' or t2 == 'ab'))):
                         continue
                     cases.append({'cfg': cfg, 'universe': 'U4', 'shape': sh, 'programs': [[('create_dir_all', t1)], [('create_dir_all', t2)]], 'mode': 'all_ok',
                                   'preemption_bound': None if cfg == 'mem' else (1 if tier == 'quick' else 2)})
@@ -733,7 +735,7 @@ def c17(tier, seed):
         scases = [c for c in scases if len(c['shape']) <= 1]
     ck.add(run_cases(prog, threads.run_concurrent_case, scases), 'same on MemoryFS with symbolic component names (universe USYMD), every interleaving')
     ck.bounds = {'threads': '2 (3 sampled in thorough)', 'paths': 'depth 1..3 sharing prefixes of every length (U4)', 'initial_states': 'every subset of the prefixes existing as directories',
-                 'configs': ['MemoryFS (every interleaving)', 'OverlayFS[Mem,Mem] (at most %d preemptive switches)' % (1 if tier == 'quick' else 2)] + (['AltrootFS/Mem (at most 2 preemptive switches)'] if tier != 'quick' else []),
+                 'configs': ['MemoryFS (every interleaving)', 'OverlayFS[Mem,Mem], pre-existing prefixes in the upper layer or only in the lower layer (at most %d preemptive switches)' % (1 if tier == 'quick' else 2)] + (['AltrootFS/Mem (at most 2 preemptive switches)'] if tier != 'quick' else []),
                  'not_encoded': 'the randomised PhysicalFS stress of the quantifier (mkdir(2) atomicity is a kernel property)'}
     ck.assumptions = THREAD_ASSUMPTIONS
     ck.rule = 'a state = (configuration, existing prefixes, target pair); a transition = one complete interleaving; all interleavings enumerated'
